@@ -18,7 +18,7 @@ ALLOWED_AXIOMS = set()   # nothing beyond "Closed under the global context" is a
 TRUSTED_BASE = [
     "Coq 8.16.1 kernel (coqc); vm_compute for the finite sweeps; native_compute not used",
     "axioms: none (every pinned theorem must print 'Closed under the global context')",
-    "extraction: ExtrOcamlBasic only (bool, option, unit, list, prod, sumbool -> OCaml); N/positive/nat stay extracted datatypes",
+    "extraction: Require Import ExtrOcamlBasic only, no directive of our own; its directives: Extract Inductive bool => bool, option => option, unit => unit, list => list, prod => ( * ), sumbool => bool, sumor => option; Extract Inlined Constant andb => (&&), orb => (||); N/positive/Z/nat/string/ascii stay extracted datatypes",
     "ocaml/driver.ml (reads/prints hex numbers, no logic) and harness/ (Rust glue around lace's own functions)",
     "the lace_verif hooks in /repo (add-only; exits become unwinds, console I/O goes through buffers)",
     "the correspondence check is differential testing: the hand-written MODEL is tied to the code only on the inputs it runs",
